@@ -25,7 +25,7 @@ T = {
  "C20": ("proof", "name table vs dispatch table; own-attribute-type and offending-value provenance of every constructed DecodeError; Display arms"),
 }
 TEXT = {
- "C01": "For all inputs and all 8 option sets at once: every arithmetic op, index, unwrap, unsafe precondition, reader precondition, reachable panic and loop ranking obligation in the decode closure is discharged (268 obligations, 3 MIR configurations in the thorough tier); Err lists proven non-empty. Proof level because the obligations are the property; wall-clock bounds and allocation failure are out of scope.",
+ "C01": "For all inputs and all 8 option sets at once: every arithmetic op, index, unwrap, unsafe precondition, reader precondition, reachable panic and loop ranking obligation in the decode closure is discharged (quick tier: overflow-checks and debug-assertions configurations; thorough adds the release configuration); Err lists proven non-empty. Proof level because the obligations are the property; wall-clock bounds and allocation failure are out of scope.",
  "C02": "Every Reader call site of the codec is proven to request only octets that remain (contract side of an assume-guarantee argument whose other side is C18); 'same result for every conforming reader' follows from parametricity plus a structural no-reflection check and is recorded as an argument, not an enumeration.",
  "C03": "Structural necessary conditions of decode(encode(v)) = v for all 40 variants and the control header (dispatch, per-partition layout and field agreement, no length-class rejection of encoder output). The value-level equation itself is not decided by a static argument in reach; hence 'other'.",
  "C04": "All 16 L/S/O/P configurations and all field values at once: encoder layout, infeasibility of every rejecting decoder path on encoder output, field provenance agreement, payload extent, full consumption. Octet equality through to_be_bytes etc. is trusted std semantics; hence 'other'.",
@@ -57,7 +57,7 @@ for p in props:
         checks.append({"property_id": pid, "quick_cmd": "./check %s --tier quick" % pid, "thorough_cmd": "./check %s --tier thorough" % pid,
                        "evidence_file": "/verif/evidence/%s.json" % pid, "replay_cmd_template": "cat {path}", "engine": "E0 facts + lenflow/layout/tables/effects",
                        "level_claimed": {"category": lvl, "text": TEXT[pid], "design_ref": "DESIGN.md sections 4 and 8.3, " + pid},
-                       "level_note": "trusted base: rustc MIR, stub table of std/md5/phf semantics, Reader/Writer contract tables, spec/*.json as the reading of RFC 2661, own FM entailment (sound, incomplete)",
+                       "level_note": "trusted base: rustc MIR, stub table of std/md5/phf semantics, spec/*.json as the reading of RFC 2661, own FM entailment (sound, incomplete). The Reader/Writer contract entries this check's proof applies are discharged for SliceReader/VecWriter inside the check itself (keys `contract | ...`); clauses owned by another property that this one's statement contains are borrowed (keys `via Cxx | ...`). An obligation that fails while the analysis met an unmodelled callee or abandoned a path is reported as UNDECIDED (exit 0), never as a violation (DESIGN.md 8.10). The thorough tier also runs the checker self-test on scratch copies (DESIGN.md 8.8).",
                        "technique": tech})
 na = [{"property_id": p["id"], "reason": "check under construction in this session (static rule planned in DESIGN.md section 4); not claimed until it exists"}
       for p in props if p["id"] not in have]
